@@ -272,7 +272,7 @@ Ltac simp_state :=
   cbn [bars heap fifo ph popped queue retired upd_bar cs_bars cs_heap cs_hsync cs_hlen cs_hdirty
     cs_iterating cs_popped cs_fifo cs_queue cs_pop_prio cs_id_count cs_ph cs_cwbuf cs_delayed cs_pend_writes cs_pend_fix
     cs_outframes cs_cancelled cs_done_seen cs_ended cs_errored cs_cycle_pops cs_cycle_flushed cs_iter_heap cs_iter_dirty
-    cs_retired cs_ct_exited cs_wlog cs_cycle_err cs_out_pending cs_matrix cs_final_done cs_released cs_last_lazy last_lazy promote released final_done matrix out_pending ph_pushes hsync hlen hdirty iterating pop_prio id_count pop_mode auto_mode cwbuf delayed pend_writes
+    cs_retired cs_ct_exited cs_wlog cs_cycle_err cs_out_pending cs_matrix cs_final_done cs_released cs_last_lazy cs_state_answer state_answer last_lazy promote released final_done matrix out_pending ph_pushes hsync hlen hdirty iterating pop_prio id_count pop_mode auto_mode cwbuf delayed pend_writes
     pend_fix outframes cancelled done_seen ended errored ct_exited wlog cycle_err cycle_pops cycle_flushed iter_heap iter_dirty] in *.
 
 Ltac norm_places :=
